@@ -101,6 +101,8 @@ pub fn strategy() -> BoxedStrategy<PlanCase> {
         3 => 65u64..=4096,
         2 => 4097u64..=1_048_576,
         2 => Just(SEGMENT_SIZE),
+        // larger than the default geometry (offsets beyond 30 bits)
+        1 => prop_oneof![Just(2 * SEGMENT_SIZE), Just(4 * SEGMENT_SIZE), Just(SEGMENT_SIZE + 1), SEGMENT_SIZE + 1..=64 * SEGMENT_SIZE],
     ];
     let thr = prop_oneof![
         1 => Just(0u32),
@@ -363,6 +365,8 @@ pub fn check(c: &PlanCase, known: &Known) -> Verdict {
         .class_if(c.segs.iter().any(|s| !s.frozen), "thawed-present")
         .class_if(c.threshold_permille > 1000, "threshold>1")
         .class_if(c.segment_size == SEGMENT_SIZE, "segment_size:1GiB")
+        .class_if(c.segment_size > SEGMENT_SIZE, "segment_size>1GiB")
+        .class_if(c.segment_size > SEGMENT_SIZE && plan.moves.iter().any(|m| m.dest_offset >= SEGMENT_SIZE), "move-lands-beyond-1GiB")
         .class_if(c.segs.iter().any(|s| s.write_position == c.segment_size), "full-segment-present");
 
     let pop = format!(
